@@ -142,8 +142,16 @@ def sec_consecutive_length(chk):
 class FName:
     """contract view of a sample file name: '<base>.<index>.pickle' (format verified natively in section file_names)"""
 
+    _reg = {}
+
     def __init__(self, index, kind="sample"):
         self.index, self.kind = index, kind
+        self.id = len(FName._reg)
+        FName._reg[self.id] = self
+
+    def __format__(self, spec):
+        # f"{file_name}.tmp" in _save_to_disk: the text form carries the identity
+        return f"<<FNAME{self.id}>>"
 
 
 class _GhostFS:
@@ -151,17 +159,38 @@ class _GhostFS:
         self.samples = samples          # SymSet of sample indices present
         self.mean = mean_present        # SymBool
         self.writes = []
+        self.tmp = {}                   # temporary files (<name>.tmp): id of the target -> object
 
     @staticmethod
     def _fn(fn):
         if isinstance(fn, str):
+            import re
+            m = re.fullmatch(r"<<FNAME(\d+)>>\.tmp", fn)
+            if m:
+                t = FName._reg[int(m.group(1))]
+                return FName((t.index, t.kind), "tmp")
+            if fn.endswith(".mean.pickle.tmp"):
+                return FName((None, "mean"), "tmp")
             if fn.endswith(".mean.pickle"):
                 return FName(None, "mean")
             raise symx.EngineLimit(f"unexpected file name {fn!r}")
         return fn
 
+    def replace(self, a, b):
+        a, b = self._fn(a), self._fn(b)
+        if a.kind != "tmp" or repr(a.index) not in self.tmp:
+            raise FileNotFoundError("replace of a file that was not written")
+        obj = self.tmp.pop(repr(a.index))
+        self.writes.append((b, obj))
+        if b.kind == "mean":
+            self.mean = T_
+        else:
+            self.samples.add(b.index)
+
     def isfile(self, fn):
         fn = self._fn(fn)
+        if fn.kind == "tmp":
+            return repr(fn.index) in self.tmp
         if fn.kind == "mean":
             return bool(self.mean)
         return bool(self.samples.has(fn.index))
@@ -175,6 +204,9 @@ class _GhostFS:
 
     def create(self, fn, obj):
         fn = self._fn(fn)
+        if fn.kind == "tmp":
+            self.tmp[repr(fn.index)] = obj
+            return
         self.writes.append((fn, obj))
         if fn.kind == "mean":
             self.mean = T_
@@ -199,6 +231,7 @@ def _fs_rebind(fs):
     class _OS:
         path = _OSPath
         remove = staticmethod(fs.remove)
+        replace = staticmethod(fs.replace)
 
     class _Pickle:
         HIGHEST_PROTOCOL = 5
